@@ -103,3 +103,42 @@ ROLE_OF.update(
         f"{PLAN}.Plan._create_lazy_zarr_arrays": (f"{PLAN}.Plan._finalize", ("LazyZarrArray", "create_zarr_arrays")),
     }
 )
+
+
+def anchor_quals() -> set[str]:
+    """Every qualified name the rules may ask the index for: the string values of this module
+    and the string literals / f-strings over `A.<NAME>` in sa/rules/*.py.  Used only to decide
+    which moved-and-re-exported functions keep their anchor name (index._apply_relocations)."""
+    import ast
+    import glob
+    import os
+
+    env = {k: v for k, v in globals().items() if isinstance(v, str) and k.isupper()}
+    out = {v for v in env.values() if v.startswith("cubed.")}
+    here = os.path.dirname(os.path.abspath(__file__))
+    for path in sorted(glob.glob(os.path.join(here, "rules", "*.py"))) + [os.path.abspath(__file__)]:
+        tree = ast.parse(open(path).read())
+        for n in ast.walk(tree):
+            if isinstance(n, ast.Constant) and isinstance(n.value, str) and n.value.startswith("cubed.") and " " not in n.value:
+                out.add(n.value)
+            elif isinstance(n, ast.JoinedStr):
+                parts = []
+                for v in n.values:
+                    if isinstance(v, ast.Constant):
+                        parts.append(str(v.value))
+                    elif isinstance(v, ast.FormattedValue) and v.format_spec is None and v.conversion == -1:
+                        e = v.value
+                        nm = e.attr if isinstance(e, ast.Attribute) and isinstance(e.value, ast.Name) and e.value.id == "A" else (e.id if isinstance(e, ast.Name) else None)
+                        if nm in env:
+                            parts.append(env[nm])
+                        else:
+                            parts = None
+                            break
+                    else:
+                        parts = None
+                        break
+                if parts:
+                    q = "".join(parts)
+                    if q.startswith("cubed.") and " " not in q:
+                        out.add(q)
+    return out
